@@ -365,6 +365,7 @@ package webrtc
 //@ modifies nothing
 //@ func isIceLiteSet
 //@ trusted
+//@ props C13 C30
 //@ ensures result == (ufint("remoteLite") != 0)
 //@ modifies nothing
 
